@@ -110,9 +110,9 @@ def plan(tier, seed):
         params = {"kind": (ki, ki + 1), "pl": (0, nperm), "oi": (0, nperm), "rot": (0, 24), "mirror": "bool", "noise": (0, 3 if tier == "quick" else 6)}
         pre = ["rot in (0, 5, 14, 23)", f"oi % {max(1, nperm // (6 if tier == 'quick' else 24))} == 0"]
         if kn == "TBP":
-            pre.append("pl % 10 == 0" if tier == "quick" else "True")
+            pre.append("pl % 10 == 0" if tier == "quick" else "pl % 3 == 0")
         if kn == "Oct":
-            pre.append("pl % 180 == 7" if tier == "quick" else "pl % 4 == 0")
+            pre.append("pl % 180 == 7" if tier == "quick" else "pl % 24 == 7")
         if tier == "quick":
             pre.append("noise == 0 or (rot == 0 and not mirror)")
         else:
